@@ -19,6 +19,8 @@ DOC_PATTERNS = [
     "vGGGGw0V.BUILD[-TAG]", "vMAJOR[.MINOR[.PATCH]]", "BUILD", "release-MAJOR.MINOR\\[x\\]",
     # INC1 alone in an optional group (a group is omitted exactly when all its parts are zero: INC1 never is)
     "YYYY.MM[.INC1]", "vMAJOR.MINOR[.INC1]",
+    # calendar parts that are not written most significant first (the comparison with the bump date is by significance, not by position)
+    "MM.YYYY.INC0", "DD.MM.YYYY", "0M/YYYY-BUILD", "MAJOR.MINOR.PATCH+DD.MM.YYYY",
 ]
 
 YEARS_Y = ["YYYY", "YY", "0Y"]
